@@ -177,7 +177,21 @@ class CFG:
             self._exc_edges(n.id)
             return self._block(st.body, [(n.id, None)])
         if hasattr(ast, "Match") and isinstance(st, ast.Match):
-            raise Unsupported("match statement")
+            # subject evaluated once, then the cases are tried in order: case --match--> body, --nomatch--> next case
+            subj = self._new("stmt", ast.Expr(value=st.subject, lineno=st.lineno, col_offset=st.col_offset), st)
+            self._link(dangling, subj.id)
+            self._exc_edges(subj.id)
+            cur = [(subj.id, None)]
+            out = []
+            for case in st.cases:
+                case.lineno = case.pattern.lineno
+                c = self._new("case", case, st)
+                self._link(cur, c.id)
+                self._exc_edges(c.id)
+                out += self._block(case.body, [(c.id, "match")])
+                irrefutable = case.guard is None and isinstance(case.pattern, ast.MatchAs) and case.pattern.pattern is None
+                cur = [] if irrefutable else [(c.id, "nomatch")]
+            return out + cur
         # simple statement
         n = self._new("stmt", st)
         self._link(dangling, n.id)
